@@ -3,7 +3,7 @@
 (declare-const u16_1 (_ BitVec 16))
 (declare-const u8_2 (_ BitVec 8))
 (push 1)
-(define-fun t!1904 () Bool (= (bvor (bvshl ((_ zero_extend 8) ((_ extract 7 0) (bvlshr u16_1 #x0008))) #x0008) ((_ zero_extend 8) ((_ extract 7 0) u16_1))) u16_1))
-(define-fun t!1905 () Bool (not t!1904))
-(assert t!1905)
+(define-fun t!1910 () Bool (= (bvor (bvshl ((_ zero_extend 8) ((_ extract 7 0) (bvlshr u16_1 #x0008))) #x0008) ((_ zero_extend 8) ((_ extract 7 0) u16_1))) u16_1))
+(define-fun t!1911 () Bool (not t!1910))
+(assert t!1911)
 (check-sat)
